@@ -44,6 +44,14 @@ def fname(spec, i):
     return R_NAMES[i % len(R_NAMES)] if spec.get("names") == "r" else f"f{i}"
 
 
+RV_NAMES = ["r#type", "r#loop", "Ready", "r#Box", "r#fn"]
+
+
+def vname(spec, i):
+    """Variant names: V0, V1, .. or - spec["vnames"] == "r" - raw identifiers (keywords as names) next to plain ones."""
+    return RV_NAMES[i % len(RV_NAMES)] if spec.get("vnames") == "r" else f"V{i}"
+
+
 def gen_spec(rng, kind=None):
     kind = kind or rng.choice(["struct", "struct", "enum"])
     generic = rng.random() < 0.25
@@ -129,13 +137,13 @@ def type_text(spec, twin):
         b = bodies[0]
         t = head + (f"pub struct Ty{g} {b}" if spec["variants"][0]["style"] == "named" else f"pub struct Ty{g}{b};")
     else:
-        t = head + f"pub enum Ty{g} {{ " + ", ".join(f"V{i}{b}" for i, b in enumerate(bodies)) + " }"
+        t = head + f"pub enum Ty{g} {{ " + ", ".join(f"{vname(spec, i)}{b}" for i, b in enumerate(bodies)) + " }"
     return t, (g != "")
 
 
 def ctor(spec, vi, which, twin, prefix=""):
     v = spec["variants"][vi]
-    head = f"{prefix}Ty" if spec["kind"] == "struct" else f"{prefix}Ty::V{vi}"
+    head = f"{prefix}Ty" if spec["kind"] == "struct" else f"{prefix}Ty::{vname(spec, vi)}"
     vals = []
     for i, f in enumerate(v["fields"]):
         if twin and f["ignore"]:
@@ -236,6 +244,15 @@ def core():
             ft[1]["bound"] = bnd
             specs.append({"kind": "enum", "variants": [{"style": "unit", "fields": []}, {"style": style, "fields": ft}], "generic": False,
                           "entry": "derive" if k % 2 else "attr", "names": "r"})
+    # variants named with raw identifiers (the std derive prints them without `r#`), every variant style, with and without ignored fields
+    for entry in ("attr", "derive"):
+        for ign in (False, True):
+            specs.append({"kind": "enum", "generic": False, "entry": entry, "vnames": "r", "names": "r", "variants": [
+                {"style": "unit", "fields": []},
+                {"style": "tuple", "fields": [fld("u8"), fld("str", ignore=ign)]},
+                {"style": "unit", "fields": []},
+                {"style": "named", "fields": [fld("i32", ignore=ign), fld("opt"), fld("u8")]},
+                {"style": "tuple", "fields": [fld("inner", transparent=ign)]}]})
     # twelve fields (names / indices whose text order differs from the declaration order), some ignored
     cyc = ["u8", "i32", "str", "opt", "tup", "sh"]
     for style in ("named", "tuple"):
